@@ -26,72 +26,179 @@ HEADER = (
 )
 
 
-def render(prog, indent="    ") -> str:
-    out = [HEADER]
+COMMENTS = ["# note", "#", "# i0 = 99", "#i1 = i0 + 1", "# else:", "# if i0 > 1:", "# while True:", "#end", "# it's off",
+            '# say "hi', "# mon.write(777)", "# break", "# continue", "# pass", "#    indented text", "# for k9 in range(3):",
+            "# elif i0 < 0:", "# return 0", "# def f9(a):", "# sleep(999)", "## TODO: x += 1", "#!shebang-like", "# 100% # twice"]
 
-    def block(stmts, lvl):
-        pad = indent * lvl
+
+class Noise:
+    """Meaning-preserving layout noise for `render` (CPython ignores all of it: Language Reference 2.1.3 comments, 2.1.7
+    blank lines): comment-only lines at EVERY column - 0, the column of the enclosing block header, anything between 0 and
+    the current indentation, the current indentation, deeper -, blank and blanks-only lines, before any statement (also the
+    first of a block, also elif / else headers) and after the last statement of a block; trailing comments / trailing blanks
+    on statements and on headers (if / elif / else / while / for / def / the main loop).  Indentation stays spaces-only, no
+    blank is put between a callee and its parenthesis or after if/elif/while keywords (the listed C07 layout findings - tab
+    width, `if(`, `f (` - are never produced).  `stats` counts what was placed; a comment-only line no deeper than the
+    enclosing header that is FOLLOWED by a statement of the same block is counted as `dedented-comment-inside-block`."""
+
+    def __init__(self, rng, p_line=0.3, p_trail=0.18, p_blank=0.12):
+        self.rng, self.p_line, self.p_trail, self.p_blank = rng, p_line, p_trail, p_blank
+        self.stats = {}
+
+    def _n(self, k):
+        self.stats[k] = self.stats.get(k, 0) + 1
+
+    def junk(self, lvl, unit, inside, follows):
+        """junk lines in front of a line of nesting level lvl (inside: the position is inside a block whose header is at
+        level lvl - 1; follows: a statement of that block comes after the junk)"""
+        r, out = self.rng, []
+        cur = lvl * unit
+        while r.random() < self.p_line:
+            k = r.random()
+            if k < 0.30:
+                col = 0
+            elif k < 0.50:
+                col = max(0, cur - unit)                  # the column of the enclosing header
+            elif k < 0.65:
+                col = r.randrange(0, cur + 1)             # any column up to the current indentation
+            elif k < 0.85:
+                col = cur
+            else:
+                col = cur + r.choice([1, 2, 4, 8])
+            out.append(" " * col + r.choice(COMMENTS) + "\n")
+            rel = ("deeper" if col > cur else "at-indent" if col == cur else "at-header-column" if col == cur - unit
+                   else "left-of-header" if col < cur - unit else "between-header-and-indent")
+            self._n("comment-line:" + rel)
+            if inside and lvl > 0 and col <= cur - unit and follows:
+                self._n("dedented-comment-inside-block")
+        while r.random() < self.p_blank:
+            out.insert(r.randrange(len(out) + 1), " " * r.choice([0, 0, 0, 1, 4, cur, cur + 3]) + "\n")
+            self._n("blank-line")
+        return out
+
+    def trail(self, header):
+        r = self.rng
+        if r.random() >= self.p_trail:
+            return ""
+        if r.random() < 0.2:
+            self._n("trailing-blanks")
+            return " " * r.choice([1, 2, 5])
+        self._n("trailing-comment:" + ("header" if header else "statement"))
+        return r.choice(["  ", " ", "   ", ""]) + r.choice(COMMENTS)
+
+
+def same_python(a, b):
+    """True iff CPython parses the two sources into the same syntax tree (layout, comments and blank lines aside)"""
+    import ast
+    try:
+        return ast.dump(ast.parse(a)) == ast.dump(ast.parse(b))
+    except SyntaxError:
+        return False
+
+
+def noisy_text(src, noise, unit=4):
+    """layout noise (see Noise) for a script given as TEXT in which every physical line is one logical line and the
+    indentation is `unit` blanks per level; returned unchanged when that cannot be established, and whenever CPython
+    would not read the noisy text as the very same program (ast equality)"""
+    lines = src.split("\n")
+    if any(q in src for q in ('"""', "'''")) or any(l.rstrip().endswith(("\\", ",", "(", "[", "{")) for l in lines):
+        return src
+    out, prev_lvl = [], 0
+    for l in lines:
+        if not l.strip() or l.lstrip().startswith("#"):
+            out.append(l)
+            continue
+        ind = len(l) - len(l.lstrip(" "))
+        if ind % unit or l[:ind].strip(" "):
+            return src
+        lvl = ind // unit
+        out.extend(j[:-1] for j in noise.junk(lvl, unit, lvl > 0 and lvl <= prev_lvl, True))
+        out.append(l.rstrip() + noise.trail(l.rstrip().endswith(":")))
+        prev_lvl = lvl
+    res = "\n".join(out)
+    return res if same_python(res, src) else src
+
+
+def render(prog, indent="    ", noise=None) -> str:
+    """noise=None: the plain layout (one statement per line, 4 blanks per level, nothing else).
+    noise=Noise(rng): the same statement tree with meaning-preserving layout noise (see Noise)."""
+    out = [HEADER]
+    unit = len(indent)
+
+    def put(lvl, text, header=False, inside=False):
+        if noise is not None:
+            out.extend(noise.junk(lvl, unit, inside, True))
+            text += noise.trail(header)
+        out.append(indent * lvl + text + "\n")
+
+    def block(stmts, lvl, inside=True):
+        inside = inside and lvl > 0
         if not stmts:
-            out.append(pad + "pass\n")
+            put(lvl, "pass", inside=inside)
         for s in stmts:
             k = s[0]
             if k == "assign":
-                out.append(f"{pad}{s[1]} = {s[2]}\n")
+                put(lvl, f"{s[1]} = {s[2]}", inside=inside)
             elif k == "aug":
-                out.append(f"{pad}{s[1]} {s[2]}= {s[3]}\n")
+                put(lvl, f"{s[1]} {s[2]}= {s[3]}", inside=inside)
             elif k == "swap":
-                out.append(f"{pad}{s[1]}, {s[2]} = {s[2]}, {s[1]}\n")
+                put(lvl, f"{s[1]}, {s[2]} = {s[2]}, {s[1]}", inside=inside)
             elif k == "tuple":
-                out.append(f"{pad}{', '.join(s[1])} = {', '.join(s[2])}\n")
+                put(lvl, f"{', '.join(s[1])} = {', '.join(s[2])}", inside=inside)
             elif k == "write":
-                out.append(f"{pad}mon.write({s[1]})\n")
+                put(lvl, f"mon.write({s[1]})", inside=inside)
             elif k == "sleep":
-                out.append(f"{pad}sleep({s[1]})\n")
+                put(lvl, f"sleep({s[1]})", inside=inside)
             elif k == "dw":
-                out.append(f"{pad}digital_write({s[1]}, {s[2]})\n")
+                put(lvl, f"digital_write({s[1]}, {s[2]})", inside=inside)
             elif k == "aw":
-                out.append(f"{pad}analog_write({s[1]}, {s[2]})\n")
+                put(lvl, f"analog_write({s[1]}, {s[2]})", inside=inside)
             elif k == "read":
                 fn = "analog_read" if s[2] == "analog" else "digital_read"
-                out.append(f"{pad}{s[1]} = {fn}({s[3]})\n")
+                put(lvl, f"{s[1]} = {fn}({s[3]})", inside=inside)
             elif k == "if":
                 for i, (c, b) in enumerate(s[1]):
-                    out.append(f"{pad}{'if' if i == 0 else 'elif'} {c}:\n")
+                    put(lvl, f"{'if' if i == 0 else 'elif'} {c}:", header=True, inside=inside)
                     block(b, lvl + 1)
                 if s[2]:
-                    out.append(f"{pad}else:\n")
+                    put(lvl, "else:", header=True, inside=inside)
                     block(s[2], lvl + 1)
             elif k == "while":
-                out.append(f"{pad}while {s[1]}:\n")
+                put(lvl, f"while {s[1]}:", header=True, inside=inside)
                 block(s[2], lvl + 1)
             elif k == "for":
-                out.append(f"{pad}for {s[1]} in range({s[2]}):\n")
+                put(lvl, f"for {s[1]} in range({s[2]}):", header=True, inside=inside)
                 block(s[3], lvl + 1)
             elif k in ("break", "continue", "pass"):
-                out.append(f"{pad}{k}\n")
+                put(lvl, k, inside=inside)
             elif k == "call":
-                out.append(f"{pad}{s[1]}({', '.join(s[2])})\n")
+                put(lvl, f"{s[1]}({', '.join(s[2])})", inside=inside)
             elif k == "callassign":
-                out.append(f"{pad}{s[1]} = {s[2]}({', '.join(s[3])})\n")
+                put(lvl, f"{s[1]} = {s[2]}({', '.join(s[3])})", inside=inside)
             elif k == "return":          # inside helper bodies (harness/c01_helpers.py); None = bare `return`
-                out.append(f"{pad}return\n" if s[1] is None else f"{pad}return {s[1]}\n")
+                put(lvl, "return" if s[1] is None else f"return {s[1]}", inside=inside)
             elif k == "global":
-                out.append(f"{pad}global {', '.join(s[1])}\n")
+                put(lvl, f"global {', '.join(s[1])}", inside=inside)
             else:
                 raise ValueError(k)
+        if noise is not None and lvl > 0:
+            out.extend(noise.junk(lvl, unit, True, False))       # junk after the last statement of a block
 
     if prog.get("head"):                 # statements above the function definitions (globals a helper updates)
         block(prog["head"], 0)
     for name, params, body, ret in prog.get("funcs", []):
-        out.append(f"def {name}({', '.join(params)}):\n")
-        block(body, 1)
+        put(0, f"def {name}({', '.join(params)}):", header=True)
+        stm = list(body) if body else [("pass",)]
         if ret is not None:
-            out.append(f"{indent}return {ret}\n")
+            stm.append(("return", ret))      # the final `return` belongs to the body: junk in front of it sits inside the def block
+        block(stm, 1)
         out.append("\n")
     block(prog["pre"], 0) if prog["pre"] else None
     if prog.get("main") is not None:
-        out.append("while True:\n")
+        put(0, "while True:", header=True)
         block(prog["main"], 1)
+    if noise is not None:
+        out.extend(noise.junk(0, unit, False, False))
     return "".join(out)
 
 
